@@ -1413,6 +1413,9 @@ func (s *Session) moveRecvBufToRecvQueue() error {
 	}
 }
 
+// maxQuotaWindowDays is the longest quota window that is evaluated, 100 years.
+const maxQuotaWindowDays = 36500
+
 func (s *Session) checkQuota(userName string) (ok bool, err error) {
 	policy := s.userPolicy.Load()
 	if policy == nil {
@@ -1440,7 +1443,14 @@ func (s *Session) checkQuota(userName string) (ok bool, err error) {
 	}
 	for _, quota := range policy.Quotas() {
 		now := time.Now()
-		then := now.Add(-time.Duration(quota.Days()) * 24 * time.Hour)
+		// time.Duration overflows beyond about 106751 days: the start of the
+		// window would land in the future and DeltaBetween() would panic.
+		// No counter remembers traffic that is older than this limit anyway.
+		days := int64(quota.Days())
+		if days > maxQuotaWindowDays {
+			days = maxQuotaWindowDays
+		}
+		then := now.Add(-time.Duration(days) * 24 * time.Hour)
 		totalBytes := uploadBytes.(*metrics.Counter).DeltaBetween(then, now)
 		totalBytes += downloadBytes.(*metrics.Counter).DeltaBetween(then, now)
 		if totalBytes/1048576 > int64(quota.Megabytes()) {
